@@ -40,10 +40,30 @@ type Rec struct {
 	Score int
 	Tag   string
 	Note  string
+
+	// fields of named types, derived from Score and Tag (so the reference model needs
+	// nothing else): conditions on them go through the accessors' Kind-based getters
+	State RState // "s-" + Tag
+	Flag  RFlag  // Score is even
+	Level RLevel // Score / 10
+	Ratio RRatio // Score / 4
+}
+
+// Named field types, as application records have them (type State string ...).
+type (
+	RState string
+	RFlag  bool
+	RLevel int
+	RRatio float64
+)
+
+func derive(score int, tag string) (RState, RFlag, RLevel, RRatio) {
+	return RState("s-" + tag), RFlag(score%2 == 0), RLevel(score / 10), RRatio(float64(score) / 4)
 }
 
 func newRec(db, key, token string, score int, tag string) *Rec {
 	r := &Rec{Token: token, Score: score, Tag: tag}
+	r.State, r.Flag, r.Level, r.Ratio = derive(score, tag)
 	r.SetKey(db + ":" + key)
 	return r
 }
@@ -84,14 +104,15 @@ var dbCounter atomic.Uint64
 
 // world is the set of portbase objects one scenario runs against.
 type world struct {
-	sc     *Scenario
-	db     string
-	push   pbruntime.PushFunc    // injected backends only
-	store  func(r record.Record) // injected backends: the provider/storage takes over a value it is about to push
-	prov   *mapProvider
-	parks  *parkSet
-	burst  *burstPoint
-	jitter *jitter
+	sc      *Scenario
+	db      string
+	push    pbruntime.PushFunc    // injected backends only
+	store   func(r record.Record) // injected backends: the provider/storage takes over a value it is about to push
+	prov    *mapProvider
+	parks   *parkSet
+	burst   *burstPoint
+	echoFor *sync.Map // reentrant injmap: written record -> companion the storage pushes from inside Put
+	jitter  *jitter
 }
 
 func initDatabaseSystem(dir string) error {
@@ -165,10 +186,28 @@ func newWorld(sc *Scenario) (*world, error) {
 		if err != nil {
 			return nil, err
 		}
-		w.store = func(r record.Record) { _, _ = ms.Put(r) }
+		w.store = func(r record.Record) {
+			ms.mu.Lock()
+			ms.m[r.DatabaseKey()] = r
+			ms.mu.Unlock()
+		}
 		w.push = func(rs ...record.Record) {
 			for _, r := range rs {
 				ctrl.PushUpdate(r)
+			}
+		}
+		if sc.Reentrant {
+			// the storage derives a companion value from what it is given and pushes
+			// it from inside its own Put (as a config-like provider does)
+			w.echoFor = &sync.Map{}
+			ms.afterPut = func(r record.Record) {
+				if c, ok := w.echoFor.LoadAndDelete(r); ok {
+					comp := c.(*Rec) //nolint:forcetypeassert
+					w.store(comp)
+					comp.Lock()
+					ctrl.PushUpdate(comp)
+					comp.Unlock()
+				}
 			}
 		}
 	default:
@@ -194,6 +233,9 @@ type mapStorage struct {
 	storage.InjectBase
 	mu sync.RWMutex
 	m  map[string]record.Record
+	// afterPut is called (outside the storage lock, still inside Put) with the record
+	// that was just stored
+	afterPut func(r record.Record)
 }
 
 func (s *mapStorage) Get(key string) (record.Record, error) {
@@ -208,8 +250,11 @@ func (s *mapStorage) Get(key string) (record.Record, error) {
 
 func (s *mapStorage) Put(r record.Record) (record.Record, error) {
 	s.mu.Lock()
-	defer s.mu.Unlock()
 	s.m[r.DatabaseKey()] = r
+	s.mu.Unlock()
+	if s.afterPut != nil {
+		s.afterPut(r)
+	}
 	return r, nil
 }
 
@@ -501,7 +546,12 @@ func newWrapper(db, key, token string, score int, tag, format string) (*record.W
 		Token string
 		Score int
 		Tag   string
-	}{token, score, tag}
+		State RState
+		Flag  RFlag
+		Level RLevel
+		Ratio RRatio
+	}{Token: token, Score: score, Tag: tag}
+	payload.State, payload.Flag, payload.Level, payload.Ratio = derive(score, tag)
 	var f uint8
 	var data []byte
 	switch format {
